@@ -110,6 +110,64 @@ def slim(ev):
     return {"e": e}
 
 
+def wl_slim(ev):
+    e = ev["e"]
+    if e == "enter":
+        return {"e": e, "f": ev["f"], "first": bool(ev.get("first")), "wl": ev.get("wlist", []), "prio": ev.get("prio", [])}
+    if e == "peek":
+        return {"e": e, "f": ev["f"], "s": ev["s"]}
+    if e == "add":
+        return {"e": e, "f": ev["f"], "new": ev["new"], "wl": ev.get("wlist", [])}
+    return {"e": e, "f": ev["f"], "s": ev["s"], "wl": ev.get("wlist", [])}
+
+
+def worklist_design(root, v):
+    """StmtWorklist.tla on the loop CFG: bounds and termination hold for the code as pinned, PopRemovesProcessed is violated by it
+    (negative control: the model has to exhibit the defect recorded as C06-F1) and holds for the repaired variant."""
+    out = []
+    for cfg, must_hold in (("MC_StmtWorklist_pinned.cfg", True), ("MC_StmtWorklist_repaired.cfg", True), ("MC_StmtWorklist_negative.cfg", False)):
+        r = C.tlc("MC_StmtWorklist", cfg, name="c13_" + cfg[:-4], workers=2, timeout=600)
+        if must_hold and not r.ok:
+            v.machinery_failure("StmtWorklist.tla %s: %s" % (cfg, (r.violation or r.error or "")[:800]))
+        if not must_hold and not (r.violation and "PopRemovesProcessed" in r.violation):
+            v.machinery_failure("negative control: StmtWorklist.tla with the pinned pop(0) no longer violates PopRemovesProcessed")
+        out.append({"config": cfg, "ok": r.ok, "distinct": r.distinct, "expected": "holds" if must_hold else "PopRemovesProcessed violated (negative control)"})
+    return out
+
+
+def run_worklist_traces(wcases, root, v):
+    files, cur, cnt = [], [], 0
+    for c in wcases:
+        cur.append(c)
+        cnt += len(c["events"])
+        if cnt > 40000:
+            files.append(cur)
+            cur, cnt = [], 0
+    if cur:
+        files.append(cur)
+    paths = []
+    for k, chunk in enumerate(files):
+        p = os.path.join(root, "wl_%03d.json" % k)
+        with open(p, "w") as f:
+            json.dump({"cases": chunk}, f)
+        paths.append(p)
+    cfg = os.path.join(root, "WorklistTrace.cfg")
+    C.write_cfg(cfg, spec="Spec", constraints=["ReportConstraint"])
+
+    def one(p):
+        return p, C.tlc("WorklistTrace", cfg, name="c13w_" + os.path.basename(p), env={"CASES": p}, workers=2, timeout=3000, heap="6g")
+    tot = dict(states=0, ops=0, verdicts=[])
+    with cf.ThreadPoolExecutor(max_workers=6) as ex:
+        for p, r in ex.map(one, paths):
+            if r.error or r.violation:
+                v.machinery_failure("WorklistTrace failed on %s: %s" % (p, (r.error or r.violation)[:2000]))
+                continue
+            tot["states"] += r.distinct
+            tot["verdicts"] += [json.loads(x) for x in r.printed]
+    tot["ops"] = sum(x["ops"] for x in tot["verdicts"])
+    return tot
+
+
 def run_tlc(cases, root, v):
     files, cur, cnt = [], [], 0
     for c in cases:
@@ -151,7 +209,7 @@ def run(tier, seed):
     uni = universe(tier, seed)
     jobs = build(uni, root, tier)
     res = C.lian_batch(jobs, parallel=12)
-    cases, stats, crashes = [], [], 0
+    cases, stats, crashes, wcases = [], [], 0, []
     for job, r in zip(jobs, res):
         name = "%s:n=%d:%s" % (job["_fam"], job["_n"], "p2" if job["_p2"] else "p3")
         tag = "%s:%s" % (job["_fam"] if job["_fam"] != "hostile" else "hostile_%d" % job["_n"], "p2" if job["_p2"] else "p3")
@@ -170,12 +228,23 @@ def run(tier, seed):
         cfgk = post.get("config") or {}
         kept = [slim(e) for e in evs if e["e"] in KEEP]
         cases.append({"name": name, "events": kept, "k": {"maxcs": int(cfgk.get("MAX_ROUND_CALL_SITE", 2)), "slack": SLACK}})
+        wcases.append({"name": name, "events": [wl_slim(e) for e in evs if e["e"] in ("enter", "peek", "add", "pop")]})
         kinds = {}
         for e in evs:
             kinds[e["e"]] = kinds.get(e["e"], 0) + 1
         stats.append({"case": name, "size_lines": job["_size"], "events": len(evs), "frames": post.get("frames"), "wall_s": r.get("wall_s"),
                       "exit": r["exit"], "kinds": kinds, "_tag": tag, "_files": src})
     tot = run_tlc(cases, root, v)
+    wdesign = worklist_design(root, v)
+    wtot = run_worklist_traces(wcases, root, v)
+    wdrift = {}
+    for vd in wtot["verdicts"]:
+        if vd.get("drift"):
+            wdrift.setdefault(vd["drift"].split("@")[0], []).append(vd["case"])
+    for d, cs in sorted(wdrift.items()):
+        v.note("model drift of the statement worklist (%s) in %d run(s), e.g. %s: StmtWorklist.tla no longer describes SimpleWorkList" % (d, len(cs), cs[0]))
+    if wcases and not wtot["ops"] and not v.machinery:
+        v.machinery_failure("no worklist operation was replayed (the tracer is not attached to SimpleWorkList any more)")
     by = {s["case"]: s for s in stats}
     seen = set()
     drifts = {}
@@ -208,9 +277,10 @@ def run(tier, seed):
             v.machinery_failure("no '%s' event in any run: the tracer is not attached to the scheduler any more" % need)
     rc = v.finish(max_print=30)
     cov = {
-        "states": tot["states"] + sum(m["distinct"] for m in mc), "transitions": tot["transitions"] + sum(m["generated"] for m in mc),
+        "states": tot["states"] + wtot["states"] + sum(m["distinct"] for m in mc), "transitions": tot["transitions"] + sum(m["generated"] for m in mc),
         "traces_validated_against_impl": len(cases),
-        "design_model_checking": mc, "trace_states": tot["states"],
+        "design_model_checking": mc, "trace_states": tot["states"], "statement_worklist_design": wdesign,
+        "statement_worklist_operations_replayed": wtot["ops"], "statement_worklist_trace_states": wtot["states"], "statement_worklist_drift": {k: len(x) for k, x in wdrift.items()},
         "samples": [{k: s[k] for k in ("case", "size_lines", "events", "frames", "wall_s", "exit")} for s in stats[:3]],
         "runs": len(jobs), "families": sorted(SG.FAMILIES) + ["hostile"], "event_totals": tk, "drift": {k: len(x) for k, x in drifts.items()},
         "crashes_not_judged_as_divergence": crashes, "slack_factor": SLACK, "largest_run_events": max([s["events"] for s in stats] or [0]),
